@@ -36,8 +36,9 @@ class GenCfg:
         self.__dict__.update(kw)
 
 
-ARGS_POOL = [[0], [1], [1.0], ['x'], [[1, 2]], [None], [True], [{'k': 1}], [0, 'y']]
-KWARGS_POOL = [{}, {}, {}, {'k': 1}, {'k': 2}, {'j': [1]}]
+ARGS_POOL = [[0], [1], [1.0], ['x'], [[1, 2]], [None], [True], [{'k': 1}], [0, 'y'],
+             [''], [[]], [{}], [False], [0.0], [{'k': None}]]
+KWARGS_POOL = [{}, {}, {}, {'k': 1}, {'k': 2}, {'j': [1]}, {'k': None}, {'k': 0}, {'j': None}]
 
 
 TOOLONG = 'y' * 256
